@@ -162,7 +162,7 @@ func VPH_repoFromPath() {
 	}
 	vp_Stub("github.com/github/git-sizer/git.findGitBin", func() (string, error) { return "/usr/bin/git", nil })
 	path := []string{".", "sub/dir", "/abs/work", "../up"}[vp_Choice("path", 4)]
-	answer := []string{".git", "/abs/work/.git", "../../.git", ".", "/srv/bare.git", ".git/worktrees/wt"}[vp_Choice("answer", 6)]
+	answer := []string{".git", "/abs/work/.git", "../../.git", ".", "/srv/bare.git", ".git/worktrees/wt", "/home/me/my project/.git", "sub dir/.git"}[vp_Choice("answer", 8)]
 	trailer := []string{"\n", "", "\r\n", " \n"}[vp_Choice("trailer", 4)]
 	fails := vp_Choice("fails", 2) == 1
 	var argv []string
